@@ -283,12 +283,17 @@ pub fn plain_supported(fam: Fam, cont: Cont, n: usize) -> bool {
     fam_ok && supported(fam, cont, n) && match cont {
         Cont::Array => PLAIN_ARRAY_LENS.contains(&n),
         Cont::Vec => n >= 1,
+        Cont::Tuple => n >= 1,
         _ => false,
     }
 }
 fn make_fut_plain(fam: Fam, cont: Cont, cid: Cid, mut v: Vec<PFut>) -> BF {
     spare_capacity(cont, &mut v);
     match (fam, cont) {
+        (Fam::Join, Cont::Tuple) => tuples_from!(1, join, cid, v),
+        (Fam::TryJoin, Cont::Tuple) => tuples_from!(1, try_join, cid, v),
+        (Fam::Race, Cont::Tuple) => tuples_from!(1, race, cid, v),
+        (Fam::RaceOk, Cont::Tuple) => tuples_from!(1, race_ok, cid, v),
         (Fam::Join, Cont::Array) => plain_arr_dispatch!(p_join_arr, cid, v),
         (Fam::TryJoin, Cont::Array) => plain_arr_dispatch!(p_try_join_arr, cid, v),
         (Fam::Race, Cont::Array) => plain_arr_dispatch!(p_race_arr, cid, v),
@@ -307,6 +312,9 @@ fn make_fut_plain(fam: Fam, cont: Cont, cid: Cid, mut v: Vec<PFut>) -> BF {
 fn make_str_plain(fam: Fam, cont: Cont, cid: Cid, mut v: Vec<PStr>) -> BS {
     spare_capacity(cont, &mut v);
     match (fam, cont) {
+        (Fam::Merge, Cont::Tuple) => tuples_from!(1, merge, cid, v),
+        (Fam::Zip, Cont::Tuple) => tuples_from!(1, zip, cid, v),
+        (Fam::Chain, Cont::Tuple) => tuples_from!(1, chain, cid, v),
         (Fam::Merge, Cont::Array) => plain_arr_dispatch!(p_merge_arr, cid, v),
         (Fam::Zip, Cont::Array) => plain_arr_dispatch!(p_zip_arr, cid, v),
         (Fam::Chain, Cont::Array) => plain_arr_dispatch!(p_chain_arr, cid, v),
